@@ -6,6 +6,9 @@ coq/Model/Writer.v (ocaml/writer_driver.ml).  Each property's check filters the 
 
 go result / model result per op:
   add, size, wm : the model computes what the Go code must print (exact diff)
+  prr, pr       : Client.Produce's mapping of a produce response (error code -> Error, Throttle, BaseOffset,
+                  LogAppendTime, LogStartOffset, RecordErrors) against produce_error / make_time_ms of the
+                  model; prr sweeps ALL 65536 error codes on every run
   e2e           : go = ok | HANG:<what> | PANIC:<text>;  model = ok | FAIL:<names>, where a name
                   is an extracted history predicate of Model/Writer.v that evaluated to false on
                   the recorded history, or det:<what> (deterministic scenario: the model RUN with
@@ -19,7 +22,7 @@ COMMON_TRUSTED = [
     "Coq 8.16.1 kernel (coqc; coqchk in the thorough tier); vm_compute only in non-vacuity Examples and the refutation witness; no native_compute",
     "hand-written model coq/Model/Writer.v of /repo/writer.go as an atomic-step LTS (labels = critical sections of w.mutex / ptw.mutex, queue operations, one produce attempt with the broker's reaction, timer firings, environment choices); that Go's mutexes, condition variables, channels and WaitGroup behave as the LTS assumes, and that no goroutine outside the model touches the state, is modelled, not verified (C10 covers data races)",
     "abstractions argued in the header of Model/Writer.v: pw_open = (in w.writers) = (queue open) because both change only inside Close's critical section; batch.ready/trigger not represented; Assign processes messages in call order instead of Go's random map order (partitions are independent); Attempt merges the broker's reaction with the client's observation (fault model of DESIGN.md 2.3: a request is applied when received or never)",
-    "tie: harness/cmd/writer runs the REAL kafka.Writer (build tag verif, hooks in /repo/verif_export_writer.go) on harness/fakert (typed RoundTripper-level fake: produce and metadata only; no wire format); recorded globally-sequenced histories are judged by the history predicates DEFINED in Model/Writer.v and extracted (ExtrOcamlBasic only); deterministic single-caller scenarios are additionally compared request-by-request with a run of the extracted step function; step-level differential for writeBatch.add/full, Message.totalSize (header-less), partitionWriter.writeMessages",
+    "tie: harness/cmd/writer runs the REAL kafka.Writer (build tag verif, hooks in /repo/verif_export_writer.go) on harness/fakert (typed RoundTripper-level fake: produce and metadata only; no wire format); recorded globally-sequenced histories are judged by the history predicates DEFINED in Model/Writer.v and extracted (ExtrOcamlBasic only); deterministic single-caller scenarios are additionally compared request-by-request with a run of the extracted step function; step-level differential for writeBatch.add/full, Message.totalSize (header-less), partitionWriter.writeMessages, and Client.Produce's response mapping (error code -> Error on all 65536 codes, Throttle, BaseOffset, LogAppendTime, LogStartOffset, RecordErrors)",
     "ocaml/kvio.ml.in + ocaml/writer_driver.ml (parsing, the deterministic scheduler that picks model labels; ~350 lines) and harness/kvfmt",
     "message identity: every message value carries (caller, sequence number); ids are unique per scenario (the model's Call step requires fresh ids)",
     "retriable : err -> bool is a parameter of the model (theorems hold for every such predicate); on the implementation side it is isTemporary || isTransientNetworkError evaluated through the hook on the errors the fake injects",
@@ -106,6 +109,22 @@ def failures_of_case(c):
     out = []
     if model is None or model.startswith("EXN:") or model in ("BADCASE", "? BADLINE"):
         return [("*", "correspondence", f"model driver could not evaluate a {op} case: {model}", None)]
+    if op in ("prr", "pr"):
+        if go != model:
+            # the model function is the property's own reading of the response ("only code 0 is
+            # success; the other fields are copied"): a differing error verdict is a violation of
+            # C01 (a failed batch reported as written, or a written one as failed)
+            gi, mi = go.split(",") if op == "prr" else [go.split(":")[0]], model.split(",") if op == "prr" else [model.split(":")[0]]
+            verdict_differs = len(gi) != len(mi) or any((a == "-") != (b == "-") for a, b in zip(gi, mi))
+            if verdict_differs:
+                out.append(("C01", "property",
+                            "Client.Produce reports a produce response with a NON-ZERO partition error code as success (or a "
+                            "zero code as failure): the batch is acknowledged to the Writer although the broker did not append it "
+                            "(see the case: op prr sweeps all 65536 codes, go result '-' = reported as success)", None))
+            else:
+                out.append(("*", "correspondence", "Client.Produce's response mapping (error code value / Throttle / BaseOffset / "
+                            "LogAppendTime / LogStartOffset / RecordErrors) differs from the model", None))
+        return out
     if op in ("add", "size", "wm"):
         if go != model:
             what = {"add": "writeBatch.add/full differ from the model's add_fits/add_msg/full",
@@ -162,6 +181,8 @@ def relevant(prop, c):
         return prop == "C09"
     if op in ("add", "size"):
         return prop == "C08"
+    if op in ("prr", "pr"):
+        return prop == "C01"
     if op == "wm":
         return prop in ("C08", "C07", "C01")
     return False
@@ -173,6 +194,10 @@ TRIVIAL_TAGS = {"callers=1", "sync", "det", "acked-only", "nondet"}
 def nontrivial(c):
     if c["op"] == "wm":
         return "queued" in c["feats"] or "call-split" in c["feats"]
+    if c["op"] == "prr":
+        return True
+    if c["op"] == "pr":
+        return c["feats"] not in ("code-zero", "")
     if c["op"] != "e2e":
         return c["op"] == "f3" or any(t in c["feats"] for t in ("exact", "full-by", "oversize", "beyond", "rejected"))
     tags = set(t for t in c["feats"].split(",") if t)
@@ -211,9 +236,9 @@ def correspondence_for(prop, ctx, rule_extra=""):
     return dict(
         evaluations=len(cases), distinct_nontrivial=len(dn), hist=hist, samples=samples, failures=failures,
         rule="cases from one PRNG (VERIF_SEED) in harness/cmd/writer: step-level (writeBatch.add/full with sizes at / one below / one above "
-             "the limits; totalSize; partitionWriter.writeMessages call sequences) and end-to-end scenario programs on the real Writer over "
+             "the limits; totalSize; partitionWriter.writeMessages call sequences; Client.Produce response mapping on all 65536 error codes (prr) and generated field values (pr)) and end-to-end scenario programs on the real Writer over "
              "the fakert RoundTripper fake (1-8 callers, sync/async, BatchSize 1..10, BatchBytes 60..2000, BatchTimeout 1-20 ms, MaxAttempts 1-4, "
-             "fault scripts over acked / applied-but-answer-lost / error code (retriable, permanent) / network error (transient, permanent) / "
+             "fault scripts over acked / applied-but-answer-lost / error code (retriable, permanent; any non-zero int16 incl. the boundary codes -1, -2, -32768, 1, 127, 128, 255, 256, 32767; 42 fixed scenarios put 7 boundary codes at first attempt / after a retry / last attempt, sync and async) / network error (transient, permanent) / "
              "time-out, topic conflicts, too-large messages first/middle/last, context cancellation, Close racing callers, calls after Close, "
              "metadata faults); an e2e case counts when both the implementation ran it and the extracted predicates judged its history; "
              "non-trivial = feature vector beyond {1 caller, sync, acked-only}; distinct by hash of op+args. " + rule_extra,
